@@ -32,7 +32,12 @@ package cbor
 //@ func (*IOCbor).Write
 //@   requires i != nil && ipfs != nil && i.constantIdentity == nil
 //@   requires typeis(obj, "*entry.Entry") ==> validEntry(obj.(iface.IPFSLogEntry)) && (obj.(*entry.Entry).Identity == nil || obj.(*entry.Entry).Identity.Signatures != nil)
+//@   requires [links-are-stored-before-the-block-is-written] typeis(obj, "*entry.Entry") ==> linksStored(obj.(iface.IPFSLogEntry))
+//@   requires [manifest-heads-are-stored] typeis(obj, "*iface.JSONLog") ==> forall i int :: 0 <= i && i < len(obj.(*iface.JSONLog).Heads) ==> stored[obj.(*iface.JSONLog).Heads[i]]
+//@   modifies stored, lastAdded, addCount
 //@   ensures [write-reports-failure] err != nil ==> result0 == cidUndef
+//@   ensures [written-block-is-stored] err == nil ==> stored[result0] && result0 == lastAdded && addCount == old(addCount) + 1
+//@   ensures [store-only-grows] forall c cid :: old(stored[c]) ==> stored[c]
 
 // IO builds the (package-global) codec instance and registers the CBOR atlas with the third-party library:
 // its contract is assumed, its body is not on the path of any property.
